@@ -3,9 +3,10 @@ import PyrollModel.Proto
 /-
   Line-protocol driver of the symbolic hook interpreter (C16).
 
-    run <class> ext=<path/st,…|-> set=<a,b|-> order=<a,b> env=<name=bits,…|-> fuel=<n>
+    run <class> ext=<path/st,…|-> set=<a,b|-> order=<a,b> env=<name=bits,…|-> fuel=<n> [none=<a,b|->]
 
-  `st`: s (explicitly set), a (available), n (opaque body returns None), ea / ei / ev / eo (raises Attribute-, Index-,
+  `none`: names given explicitly as `None`.
+  `st`: s (explicitly set), a (available), c (available and cached on its owner), n (opaque body returns None), ea / ei / ev / eo (raises Attribute-, Index-,
   Value-, other error).  Answer (one line):
 
     <name>=<V bits | N | Eattr | Eindex | Evalue | Eother | Efuel | Eunmodelled>:<steps>:<depth>:<calls>;…|cache=a,b|active=k,…
@@ -22,6 +23,7 @@ def splitList (s : String) : List String :=
 def parseErr : String → Option Ext
   | "s" => some .set
   | "a" => some .avail
+  | "c" => some .cached
   | "n" => some .none
   | "ea" => some (.missing .attr)
   | "ei" => some (.missing .index)
@@ -75,8 +77,13 @@ def showRes (sym : Bool) (env : String → Float) : Res → String
   | .err e => showErr e
 
 def handle (classes : List (String × List String × List String × List Impl)) (line : String) : String :=
-  match Proto.toks line with
-  | [cmd, cls, e, s, o, v, f] =>
+  -- optional eighth field `none=<a,b|->`: the names given explicitly as `None`
+  let (toks, nones) := match Proto.toks line with
+    | [cmd, cls, e, s, o, v, f, n] => ([cmd, cls, e, s, o, v, f], (field "none=" n).map splitList)
+    | t => (t, some [])
+  match toks, nones with
+  | _, none => "bad-op"
+  | [cmd, cls, e, s, o, v, f], some nones =>
     if cmd ≠ "run" && cmd ≠ "sym" then "bad-op" else
     match classes.find? (fun c => c.1 = cls), field "ext=" e, field "set=" s, field "order=" o, field "env=" v,
           (field "fuel=" f).bind String.toNat? with
@@ -84,7 +91,7 @@ def handle (classes : List (String × List String × List String × List Impl)) 
       match (splitList e).mapM parseExt, (splitList v).mapM parseBinding with
       | some ext, some env =>
         let w : World := { impls := impls, mro := mro, hooks := hooks, ext := ext }
-        let (rs, obj) := scenario w fuel (splitList s) (splitList o)
+        let (rs, obj) := scenarioN w fuel (splitList s) nones (splitList o)
         let envf := envOf (0.0 / 0.0 : Float) env
         let reads := ";".intercalate (rs.map fun r => s!"{r.name}={showRes (cmd = "sym") envf r.res}:{r.steps}:{r.depth}:{r.calls}")
         let cache := ",".intercalate (obj.cache.map (·.1))
@@ -93,7 +100,7 @@ def handle (classes : List (String × List String × List String × List Impl)) 
       | _, _ => "bad-op"
     | none, _, _, _, _, _ => "unknown-class"
     | _, _, _, _, _, _ => "bad-op"
-  | _ => "bad-op"
+  | _, _ => "bad-op"
 
 partial def loop (classes : List (String × List String × List String × List Impl)) (h : IO.FS.Stream) : IO Unit := do
   let line ← h.getLine
